@@ -9,6 +9,7 @@ package main
 
 import (
 	"fmt"
+	"os"
 	"go/token"
 	"go/types"
 	"sort"
@@ -30,6 +31,9 @@ type fsmPoint struct {
 }
 
 type fsm struct {
+	symNext bool // also report the next value of loop-carried variables that are not finite-domain inputs
+	whole   bool // evaluate from the loop header to the function's exits (not only one trip through the body)
+	rets    []*ssa.Return
 	c       *Ctx
 	f       *ssa.Function
 	header  *ssa.BasicBlock
@@ -91,10 +95,40 @@ func loopOfByteReads(f *ssa.Function) (header *ssa.BasicBlock, byteVal ssa.Value
 // buildFSM evaluates the body of the loop with the given header.
 func buildFSM(c *Ctx, f *ssa.Function, header *ssa.BasicBlock, byteVal ssa.Value, extra ...fsmInput) *fsm {
 	m := &fsm{c: c, f: f, header: header, byteIn: -1}
+	return m.build(byteVal, extra...)
+}
+
+// buildFSMWhole is buildFSM with the region extended to everything reachable from the header: a point's outcome
+// is either the next trip through the header or the function's return, with the effects on the way.
+func buildFSMWhole(c *Ctx, f *ssa.Function, header *ssa.BasicBlock, byteVal ssa.Value, extra ...fsmInput) *fsm {
+	m := &fsm{c: c, f: f, header: header, byteIn: -1, whole: true}
+	return m.build(byteVal, extra...)
+}
+
+func (m *fsm) build(byteVal ssa.Value, extra ...fsmInput) *fsm {
+	c, f, header := m.c, m.f, m.header
+	_ = c
 	nl := naturalLoop(header)
 	region := map[*ssa.BasicBlock]bool{}
 	for b := range nl {
 		region[b] = true
+	}
+	if m.whole {
+		var grow func(b *ssa.BasicBlock)
+		grow = func(b *ssa.BasicBlock) {
+			if region[b] {
+				return
+			}
+			region[b] = true
+			for _, su := range b.Succs {
+				grow(su)
+			}
+		}
+		for b := range nl {
+			for _, su := range b.Succs {
+				grow(su)
+			}
+		}
 	}
 	// state inputs: phis at the header (or anywhere outside the body) with constant domains, used in the body
 	for _, in := range header.Instrs {
@@ -122,7 +156,7 @@ func buildFSM(c *Ctx, f *ssa.Function, header *ssa.BasicBlock, byteVal ssa.Value
 		m.inputs = append(m.inputs, fsmInput{byteVal, byteDomain(), "b"})
 	}
 	// entry of the body: evaluate from the header itself so that the header's own test is part of the outcome
-	for attempt := 0; attempt < 8; attempt++ {
+	for attempt := 0; attempt < 14; attempt++ {
 		if m.run(region) {
 			return m
 		}
@@ -205,6 +239,7 @@ func (m *fsm) run(region map[*ssa.BasicBlock]bool) bool {
 		return false
 	}
 	m.points = make([]*fsmPoint, n)
+	m.rets = make([]*ssa.Return, n)
 	presets := map[ssa.Value][]aval{}
 	for i, in := range m.inputs {
 		_ = i
@@ -264,6 +299,7 @@ func (m *fsm) run(region map[*ssa.BasicBlock]bool) bool {
 				}
 			}
 			m.points[k].exit = "return(" + strings.Join(rs, ",") + ")"
+			m.rets[k] = e.ret
 		case "panic":
 			m.points[k].exit = "panic"
 		case "edge":
@@ -288,6 +324,27 @@ func (m *fsm) run(region map[*ssa.BasicBlock]bool) bool {
 						}
 					}
 				}
+				if m.symNext {
+					// loop-carried values that are not finite-domain inputs: their next value, symbolically
+					for _, in := range m.header.Instrs {
+						phi, ok := in.(*ssa.Phi)
+						if !ok {
+							break
+						}
+						if indexOfInputExact(m.inputs, phi) >= 0 {
+							continue
+						}
+						for i, p := range m.header.Preds {
+							if p == e.from {
+								if phi.Edges[i] == ssa.Value(phi) {
+									ns = append(ns, phi.Comment+"=same")
+								} else {
+									ns = append(ns, phi.Comment+"="+sy.expr(phi.Edges[i]).String())
+								}
+							}
+						}
+					}
+				}
 				m.points[k].exit = "next(" + strings.Join(ns, ",") + ")"
 			} else {
 				m.points[k].exit = fmt.Sprintf("leave->%s", describeBlock(e.to))
@@ -295,6 +352,15 @@ func (m *fsm) run(region map[*ssa.BasicBlock]bool) bool {
 		}
 	}
 	return true
+}
+
+func indexOfInputExact(ins []fsmInput, v ssa.Value) int {
+	for i, in := range ins {
+		if in.v == v {
+			return i
+		}
+	}
+	return -1
 }
 
 func indexOfInput(ins []fsmInput, v ssa.Value) int {
@@ -439,6 +505,24 @@ func rulesG5Automaton(c *Ctx, r *Report, f *ssa.Function, what string) (*fsm, in
 		return nil, 0
 	}
 	r.Extra["automaton_points_"+f.Name()] = len(m.points)
+	if os.Getenv("BIOCHECK_DUMPFSM") != "" {
+		fmt.Println("FSM", fname(f), "inputs:")
+		for _, in := range m.inputs {
+			fmt.Println("   ", in.name, in.dom[:min(len(in.dom), 4)])
+		}
+		fmt.Println("    conds", m.condDesc)
+		for sk, classes := range m.byteClasses() {
+			for oc, bs := range classes {
+				show := ""
+				for i, b := range bs {
+					if i < 6 {
+						show += byteStr(b) + " "
+					}
+				}
+				fmt.Printf("    [%s] %d bytes (%s): %s\n", sk, len(bs), show, oc)
+			}
+		}
+	}
 	r.Extra["automaton_conditions_"+f.Name()] = m.condDesc
 	// per state key
 	byState := map[string]map[int]string{}
@@ -769,4 +853,597 @@ func effectFree(f *ssa.Function, depth int) bool {
 		}
 	})
 	return ok
+}
+
+func dumpFSM(m *fsm, title string) {
+	if os.Getenv("BIOCHECK_DUMPFSM") == "" {
+		return
+	}
+	fmt.Println("FSM", title, "inputs:")
+	for _, in := range m.inputs {
+		fmt.Println("   ", in.name, in.dom[:min(len(in.dom), 6)])
+	}
+	fmt.Println("    conds", m.condDesc, "err", m.err)
+	seen := map[string]int{}
+	for _, p := range m.points {
+		seen[p.outcome()]++
+	}
+	for oc, n := range seen {
+		fmt.Printf("    %5d x %s\n", n, oc)
+	}
+}
+
+// rulesNewickTokenizer (TOK): the transition function of the Newick tokenizer, for all 256 bytes in every
+// combination of (inside quotes, just saw a quote inside quotes, token buffer non-empty), compared with the
+// Newick token grammar: outside quotes a structural byte ( ) , : ; ends a pending token (pushed back) or is
+// a token by itself, blank space ends a pending token or is skipped, a quote opens a quoted token only at the
+// start of a token; inside quotes everything is kept, a doubled quote stays in the text (un-doubled later by
+// nameFromText), and the first other byte after a single quote ends the token and is pushed back.
+func rulesNewickTokenizer(c *Ctx, r *Report) {
+	f := c.role("newick.nextToken")
+	if f == nil {
+		r.undecided("TOK", "formats/newick.nextToken", "anchor", "", "tokenizer not found")
+		return
+	}
+	where := fname(f)
+	r.analysed(where)
+	h, bv := loopOfByteReads(f)
+	if h == nil {
+		r.undecided("TOK", where, "byte loop", c.pos(f.Pos()), "no loop over ReadByte results found")
+		return
+	}
+	m := buildFSMWhole(c, f, h, bv)
+	pos := c.pos(h.Instrs[0].Pos())
+	if m.err != "" {
+		r.undecided("TOK", where, "automaton", pos, "the tokenizer could not be evaluated as a finite automaton: "+m.err)
+		return
+	}
+	// inputs: two boolean state phis; conditions: read failed, buffer non-empty (possibly several sites)
+	var stateIdx, lenIdx []int
+	errIdx := -1
+	for i, in := range m.inputs {
+		switch {
+		case i == m.byteIn:
+		case strings.HasPrefix(in.name, "cond"):
+			var k int
+			fmt.Sscanf(in.name, "cond%d", &k)
+			desc := ""
+			if k-1 < len(m.condDesc) {
+				desc = m.condDesc[k-1]
+			}
+			switch {
+			case strings.Contains(desc, "ReadByte") && strings.Contains(desc, "!= nil"):
+				errIdx = i
+			case strings.Contains(desc, "extract:1(call:bufio.(*Reader).ReadByte("):
+				// another test of the read error (which error it is): only matters when the read failed
+			case strings.Contains(desc, "(0 < call:bytes.(*Buffer).Len("):
+				lenIdx = append(lenIdx, i)
+			default:
+				r.undecided("TOK", where, "conditions", pos, "the tokenizer consults a condition this rule does not know: "+desc)
+				return
+			}
+		default:
+			stateIdx = append(stateIdx, i)
+		}
+	}
+	if len(stateIdx) != 2 || errIdx < 0 || len(lenIdx) == 0 {
+		r.undecided("TOK", where, "state", pos, fmt.Sprintf("expected two boolean state variables, the read-error condition and the buffer-non-empty condition; found %d/%v/%d", len(stateIdx), errIdx >= 0, len(lenIdx)))
+		return
+	}
+	// which state variable is "inside quotes": the one that the quote byte sets from the initial state
+	classify := func(p *fsmPoint) (writes, unreads int, other []string) {
+		for _, e := range p.events {
+			switch {
+			case strings.Contains(e, "ReadByte"):
+			case strings.HasSuffix(e, ".WriteByte(b)"):
+				writes++
+			case strings.Contains(e, "UnreadByte"):
+				unreads++
+			case strings.Contains(e, ".Reset("):
+			default:
+				other = append(other, e)
+			}
+		}
+		return
+	}
+	find := func(vals map[int]int64, b int) *fsmPoint {
+		for _, p := range m.points {
+			if int(p.vals[m.byteIn]) != b {
+				continue
+			}
+			ok := true
+			for i, v := range vals {
+				if p.vals[i] != v {
+					ok = false
+				}
+			}
+			if ok {
+				return p
+			}
+		}
+		return nil
+	}
+	base := map[int]int64{errIdx: 0, stateIdx[0]: 0, stateIdx[1]: 0}
+	for _, li := range lenIdx {
+		base[li] = 0
+	}
+	p0 := find(base, '\'')
+	qIdx, aqIdx := -1, -1
+	if p0 != nil && strings.HasPrefix(p0.exit, "next(") {
+		for _, si := range stateIdx {
+			if strings.Contains(p0.exit, m.inputs[si].name+"=1") {
+				qIdx = si
+			}
+		}
+		for _, si := range stateIdx {
+			if si != qIdx {
+				aqIdx = si
+			}
+		}
+	}
+	if qIdx < 0 || aqIdx < 0 {
+		r.undecided("TOK", where, "state", pos, "could not tell which state variable means 'inside quotes' (a quote at the start of a token does not set exactly one of them)")
+		return
+	}
+	qn, aqn := m.inputs[qIdx].name, m.inputs[aqIdx].name
+	nextState := func(p *fsmPoint) (q, aq int64, ok bool) {
+		if !strings.HasPrefix(p.exit, "next(") {
+			return 0, 0, false
+		}
+		q, aq = -1, -1
+		for _, kv := range strings.Split(strings.TrimSuffix(strings.TrimPrefix(p.exit, "next("), ")"), ",") {
+			if strings.HasPrefix(kv, qn+"=") {
+				fmt.Sscanf(kv[len(qn)+1:], "%d", &q)
+			}
+			if strings.HasPrefix(kv, aqn+"=") {
+				fmt.Sscanf(kv[len(aqn)+1:], "%d", &aq)
+			}
+		}
+		return q, aq, q >= 0 && aq >= 0
+	}
+	retKind := func(k int) string {
+		rt := m.rets[k]
+		if rt == nil {
+			return "?"
+		}
+		ops := retOperands(rt)
+		if len(ops) != 2 {
+			return "?"
+		}
+		if !isNilConst(ops[1]) {
+			return "error"
+		}
+		// token text: the buffer's String(), or the byte itself
+		if cl, ok := ops[0].(*ssa.Call); ok && strings.HasSuffix(qname(cl.Call.StaticCallee()), "Buffer).String") {
+			return "token"
+		}
+		return "byte"
+	}
+	var bad []string
+	nChecked := 0
+	keys := map[[4]int64]bool{}
+	for k, p := range m.points {
+		if p.vals[errIdx] != 0 {
+			continue // the read failed: decided by the error rules
+		}
+		ne := p.vals[lenIdx[0]]
+		agree := true
+		for _, li := range lenIdx {
+			if p.vals[li] != ne {
+				agree = false
+			}
+		}
+		if !agree {
+			continue // the same fact cannot differ between two tests in one iteration
+		}
+		q, aq := p.vals[qIdx], p.vals[aqIdx]
+		b := int(p.vals[m.byteIn])
+		w, u, other := classify(p)
+		nq, naq, isNext := nextState(p)
+		kind := ""
+		if !isNext {
+			kind = retKind(k)
+		}
+		got := fmt.Sprintf("writes=%d unreads=%d", w, u)
+		if isNext {
+			got += fmt.Sprintf(" next(q=%d,aq=%d)", nq, naq)
+		} else {
+			got += " return " + kind
+		}
+		if len(other) > 0 {
+			got += " other effects " + strings.Join(other, "; ")
+		}
+		want := ""
+		isStruct := strings.IndexByte("(),:;", byte(b)) >= 0
+		isBlank := b == ' ' || b == '\t' || b == '\n' || b == '\r'
+		switch {
+		case q == 1 && b == '\'':
+			want = fmt.Sprintf("writes=1 unreads=0 next(q=1,aq=%d)", 1-aq)
+		case q == 1 && aq == 1:
+			want = "writes=0 unreads=1 return token"
+		case q == 1:
+			want = "writes=1 unreads=0 next(q=1,aq=0)"
+		case b == '\'' && ne == 1:
+			want = "writes=0 unreads=0 return error"
+		case b == '\'':
+			want = fmt.Sprintf("writes=1 unreads=0 next(q=1,aq=%d)", aq)
+		case isStruct && ne == 1:
+			want = "writes=0 unreads=1 return token"
+		case isStruct:
+			want = "writes=0 unreads=0 return byte"
+		case isBlank && ne == 1:
+			want = "writes=0 unreads=0 return token"
+		case isBlank:
+			want = fmt.Sprintf("writes=0 unreads=0 next(q=0,aq=%d)", aq)
+		default:
+			want = fmt.Sprintf("writes=1 unreads=0 next(q=0,aq=%d)", aq)
+		}
+		nChecked++
+		keys[[4]int64{q, aq, ne, int64(b)}] = true
+		if got != want {
+			if len(bad) < 6 {
+				bad = append(bad, fmt.Sprintf("inQuote=%d afterQuote=%d pending=%d byte %s: %s, want %s", q, aq, ne, byteStr(b), got, want))
+			} else if len(bad) == 6 {
+				bad = append(bad, "…")
+			}
+		}
+	}
+	r.Extra["newick_tokenizer_points_checked"] = nChecked
+	if len(keys) < 2*2*2*256 {
+		r.undecided("TOK", where, "coverage", pos, fmt.Sprintf("only %d of %d (state, pending, byte) points could be evaluated", len(keys), 2*2*2*256))
+		return
+	}
+	r.check(len(bad) == 0, "TOK", where, "transition function", pos,
+		fmt.Sprintf("all %d (inside quotes, after a quote, token pending, byte) transitions match the Newick token grammar (%d automaton points)", len(keys), nChecked),
+		"the tokenizer deviates from the Newick token grammar: "+strings.Join(bad, "; "))
+}
+
+// rulesNewickParser (PARSE): the transition function of the Newick tree parser over (parser state, kind of the
+// next token, nesting depth is 1, number parses), compared with the Newick grammar up to renaming of the states:
+//   '('  only where a node may start: add a child to the current node and descend;
+//   ')'  not right after ':' and not at the top level: ascend, children done;
+//   ','  not right after ':' and not at the top level: add a sibling (child of the parent), replace the current node;
+//   ':'  not after ':' or a length: a branch length follows;
+//   ';'  only at the top level and not right after ':': the tree is complete and returned;
+//   text: a name where a node may start or after its children (once), a number after ':' (once), else an error.
+func rulesNewickParser(c *Ctx, r *Report) {
+	f := c.role("newick.read")
+	if f == nil {
+		r.undecided("PARSE", "formats/newick.read", "anchor", "", "parser not found")
+		return
+	}
+	where := fname(f)
+	r.analysed(where)
+	// the loop that calls the tokenizer
+	tok := c.role("newick.nextToken")
+	var header *ssa.BasicBlock
+	for _, b := range f.Blocks {
+		nl := naturalLoop(b)
+		if len(nl) < 2 {
+			continue
+		}
+		has := false
+		for blk := range nl {
+			for _, in := range blk.Instrs {
+				if cl, ok := in.(*ssa.Call); ok && tok != nil && cl.Call.StaticCallee() == tok {
+					has = true
+				}
+			}
+		}
+		if has && (header == nil || len(nl) > len(naturalLoop(header))) {
+			header = b
+		}
+	}
+	if header == nil {
+		r.undecided("PARSE", where, "token loop", c.pos(f.Pos()), "no loop around the tokenizer call found")
+		return
+	}
+	pos := c.pos(f.Pos())
+	m := &fsm{c: c, f: f, header: header, byteIn: -1, whole: true, symNext: true}
+	m.build(nil)
+	dumpFSM(m, where)
+	if m.err != "" {
+		r.undecided("PARSE", where, "automaton", pos, "the parser loop could not be evaluated as a finite automaton: "+m.err)
+		return
+	}
+	// inputs
+	stateIdx, errIdx, pfIdx := -1, -1, -1
+	tokIdx := map[string]int{}
+	type depthCond struct {
+		idx int
+		eq  bool
+	}
+	var depth []depthCond
+	var ignore []int
+	for i, in := range m.inputs {
+		if !strings.HasPrefix(in.name, "cond") {
+			if len(in.dom) >= 4 {
+				stateIdx = i
+			} else {
+				ignore = append(ignore, i) // flags such as readAny: only matter on the error path
+			}
+			continue
+		}
+		var k int
+		fmt.Sscanf(in.name, "cond%d", &k)
+		desc := m.condDesc[k-1]
+		desc = desc[strings.Index(desc, "= ")+2:]
+		switch {
+		case strings.Contains(desc, "ParseFloat"):
+			pfIdx = i
+		case strings.Contains(desc, "extract:1(call:"+fname(tok)) || strings.Contains(desc, "extract:1(call:formats/newick.") && strings.Contains(desc, "!= nil"):
+			if strings.Contains(desc, "!= nil") && errIdx < 0 {
+				errIdx = i
+			} else {
+				ignore = append(ignore, i)
+			}
+		case strings.HasPrefix(desc, "(\"") && strings.Contains(desc, "\" == extract:0(call:"):
+			t := desc[2:strings.Index(desc[2:], "\"")+2]
+			tokIdx[t] = i
+		case strings.Contains(desc, "builtin:len(") && strings.Contains(desc, "1"):
+			depth = append(depth, depthCond{i, strings.Contains(desc, "==")})
+		default:
+			r.undecided("PARSE", where, "conditions", pos, "the parser consults a condition this rule does not know: "+m.condDesc[k-1])
+			return
+		}
+	}
+	if stateIdx < 0 || errIdx < 0 || pfIdx < 0 || len(tokIdx) != 5 || len(depth) == 0 {
+		r.undecided("PARSE", where, "inputs", pos, fmt.Sprintf("expected a state variable, the tokenizer error, the number-parse error, five token comparisons and a depth test; found state:%v err:%v parse:%v tokens:%d depth:%d", stateIdx >= 0, errIdx >= 0, pfIdx >= 0, len(tokIdx), len(depth)))
+		return
+	}
+	nameF, distF, childF := -1, -1, -1
+	for k := 0; k < 3; k++ {
+		switch recordFieldName(c, "formats/newick", "Node", k) {
+		case "Name":
+			nameF = k
+		case "Distance":
+			distF = k
+		case "Children":
+			childF = k
+		}
+	}
+	// the node stack: the loop-carried slice
+	stackName := ""
+	for _, in := range header.Instrs {
+		phi, ok := in.(*ssa.Phi)
+		if !ok {
+			break
+		}
+		if _, isSlice := phi.Type().Underlying().(*types.Slice); isSlice {
+			stackName = newSymb(f).expr(phi).String()
+		}
+	}
+	if stackName == "" {
+		r.undecided("PARSE", where, "node stack", pos, "no loop-carried slice (the stack of open nodes) found")
+		return
+	}
+	norm := func(e string) string { return strings.ReplaceAll(e, stackName, "LOOP0") }
+	// outcome of a point
+	classify := func(k int, p *fsmPoint) string {
+		var evs []string
+		for _, e := range p.events {
+			if strings.HasSuffix(e, "nextToken()") || strings.Contains(e, "nameFromText(") && !strings.HasPrefix(e, "store ") {
+				continue
+			}
+			evs = append(evs, norm(e))
+		}
+		p = &fsmPoint{vals: p.vals, events: p.events, exit: norm(p.exit)}
+		next := map[string]string{}
+		if strings.HasPrefix(p.exit, "next(") {
+			body := strings.TrimSuffix(strings.TrimPrefix(p.exit, "next("), ")")
+			// split at top-level commas
+			depthP, start := 0, 0
+			for i := 0; i <= len(body); i++ {
+				if i == len(body) || (body[i] == ',' && depthP == 0) {
+					kv := body[start:i]
+					if j := strings.Index(kv, "="); j > 0 {
+						next[kv[:j]] = kv[j+1:]
+					}
+					start = i + 1
+				} else if body[i] == '(' || body[i] == '[' {
+					depthP++
+				} else if body[i] == ')' || body[i] == ']' {
+					depthP--
+				}
+			}
+		}
+		var stackNext string
+		for name, v := range next {
+			if name != m.inputs[stateIdx].name && v != "same" && !strings.HasPrefix(name, m.inputs[stateIdx].name) {
+				isInput := false
+				for _, in := range m.inputs {
+					if in.name == name {
+						isInput = true
+					}
+				}
+				if !isInput {
+					stackNext = v
+				}
+			}
+		}
+		if !strings.HasPrefix(p.exit, "next(") {
+			rt := m.rets[k]
+			if rt == nil {
+				if p.exit == "panic" {
+					return "panic"
+				}
+				return "?" + p.exit
+			}
+			ops := retOperands(rt)
+			if len(ops) == 2 && !isNilConst(ops[1]) {
+				if len(evs) > 0 {
+					return "error after effects " + strings.Join(evs, "; ")
+				}
+				return "error"
+			}
+			if len(ops) == 2 && isNilConst(ops[1]) && len(evs) == 0 {
+				e := norm(newSymb(f).expr(ops[0]).String())
+				if e == "load(LOOP0[0])" {
+					return "finish"
+				}
+				return "return " + e
+			}
+			return "return?"
+		}
+		st := next[m.inputs[stateIdx].name]
+		top := fmt.Sprintf("[(builtin:len(LOOP0) - 1)]).f%d", childF)
+		par := fmt.Sprintf("[(builtin:len(LOOP0) - 2)]).f%d", childF)
+		switch {
+		case len(evs) == 0 && stackNext == "":
+			return "stay->" + st
+		case len(evs) == 0 && strings.HasPrefix(stackNext, "slice(") && strings.HasSuffix(stackNext, "_, (builtin:len(LOOP0) - 1))"):
+			return "pop->" + st
+		case len(evs) == 2 && strings.HasPrefix(evs[0], "append(load(load(LOOP0") && strings.Contains(evs[0], top) && strings.HasPrefix(evs[1], "append(LOOP0, alloc:") && strings.HasPrefix(stackNext, "builtin:append(LOOP0"):
+			return "push->" + st
+		case len(evs) == 2 && strings.HasPrefix(evs[0], "append(load(load(LOOP0") && strings.Contains(evs[0], par) && strings.HasPrefix(evs[1], "store LOOP0[(builtin:len(LOOP0) - 1)] = alloc:") && stackNext == "":
+			return "sibling->" + st
+		case len(evs) == 1 && strings.HasPrefix(evs[0], fmt.Sprintf("store load(LOOP0[(builtin:len(LOOP0) - 1)]).f%d = call:", nameF)) && strings.Contains(evs[0], "nameFromText(extract:0(") && stackNext == "":
+			return "name->" + st
+		case len(evs) == 1 && strings.HasPrefix(evs[0], fmt.Sprintf("store load(LOOP0[(builtin:len(LOOP0) - 1)]).f%d = extract:0(call:strconv.ParseFloat(extract:0(", distF)) && stackNext == "":
+			return "dist->" + st
+		}
+		return "?" + strings.Join(evs, "; ") + " => " + p.exit
+	}
+	// transitions keyed by (state, token kind, depth1, parse ok)
+	type key struct {
+		s     int64
+		t     string
+		d, pf int64
+	}
+	T := map[key]string{}
+	conflict := ""
+	for k, p := range m.points {
+		if p.vals[errIdx] != 0 {
+			continue
+		}
+		t, nTrue := "text", 0
+		for tk, ti := range tokIdx {
+			if p.vals[ti] == 1 {
+				t = tk
+				nTrue++
+			}
+		}
+		if nTrue > 1 {
+			continue // a token equals at most one of the literals
+		}
+		d := int64(-1)
+		okD := true
+		for _, dc := range depth {
+			v := p.vals[dc.idx]
+			if !dc.eq {
+				v = 1 - v
+			}
+			if d >= 0 && d != v {
+				okD = false
+			}
+			d = v
+		}
+		if !okD {
+			continue
+		}
+		kk := key{p.vals[stateIdx], t, d, 1 - p.vals[pfIdx]}
+		oc := classify(k, p)
+		if old, ok := T[kk]; ok && old != oc {
+			conflict = fmt.Sprintf("state %d token %q depth1=%d: %s vs %s", kk.s, kk.t, kk.d, old, oc)
+		}
+		T[kk] = oc
+	}
+	if conflict != "" {
+		r.undecided("PARSE", where, "projection", pos, "the transition depends on more than (state, token kind, depth, number parses): "+conflict)
+		return
+	}
+	// name the states from the initial state's behaviour
+	var s0 int64 = -1
+	if phi, ok := m.inputs[stateIdx].v.(*ssa.Phi); ok {
+		nl := naturalLoop(header)
+		for i, pb := range phi.Block().Preds {
+			if !nl[pb] {
+				if kc, ok := cInt(constVal(phi.Edges[i])); ok {
+					s0 = kc
+				}
+			}
+		}
+	}
+	target := func(oc string) int64 {
+		var v int64 = -99
+		if i := strings.Index(oc, "->"); i >= 0 {
+			fmt.Sscanf(oc[i+2:], "%d", &v)
+		}
+		return v
+	}
+	sName := target(T[key{s0, "text", 0, 1}])
+	sColon := target(T[key{s0, ":", 0, 1}])
+	sDist := target(T[key{sColon, "text", 0, 1}])
+	sChild := target(T[key{s0, ")", 0, 1}])
+	names := map[int64]string{s0: "beforeNode", sName: "afterName", sColon: "afterColon", sDist: "afterDist", sChild: "afterChildren"}
+	if s0 < 0 || len(names) != 5 || sName < 0 || sColon < 0 || sDist < 0 || sChild < 0 {
+		r.violated("PARSE", where, "states", pos, fmt.Sprintf("from the initial state, a name, ':' (then a number) and ')' do not lead to four further distinct states: %d %d %d %d %d", s0, sName, sColon, sDist, sChild))
+		return
+	}
+	want := func(s int64, t string, d, pf int64) string {
+		arrow := func(act string, to int64) string { return fmt.Sprintf("%s->%d", act, to) }
+		switch t {
+		case "(":
+			if s == s0 {
+				return arrow("push", s0)
+			}
+			return "error"
+		case ")":
+			if s == sColon || d == 1 {
+				return "error"
+			}
+			return arrow("pop", sChild)
+		case ",":
+			if s == sColon || d == 1 {
+				return "error"
+			}
+			return arrow("sibling", s0)
+		case ":":
+			if s == sColon || s == sDist {
+				return "error"
+			}
+			return arrow("stay", sColon)
+		case ";":
+			if d != 1 || s == sColon {
+				return "error"
+			}
+			return "finish"
+		}
+		switch s {
+		case sName, sDist:
+			return "error"
+		case s0, sChild:
+			return arrow("name", sName)
+		}
+		if pf == 0 {
+			return "error"
+		}
+		return arrow("dist", sDist)
+	}
+	var bad []string
+	n := 0
+	for s := range names {
+		for _, t := range []string{"(", ")", ",", ":", ";", "text"} {
+			for d := int64(0); d <= 1; d++ {
+				for pf := int64(0); pf <= 1; pf++ {
+					got, ok := T[key{s, t, d, pf}]
+					if !ok {
+						bad = append(bad, fmt.Sprintf("%s, token %q, top level %d: no transition evaluated", names[s], t, d))
+						continue
+					}
+					n++
+					if w := want(s, t, d, pf); got != w {
+						if len(bad) < 6 {
+							bad = append(bad, fmt.Sprintf("%s, token %q, top level=%d, number parses=%d: %s, want %s", names[s], t, d, pf, got, w))
+						}
+					}
+				}
+			}
+		}
+	}
+	r.Extra["newick_parser_transitions_checked"] = n
+	r.Extra["newick_parser_points"] = len(m.points)
+	r.check(len(bad) == 0, "PARSE", where, "transition function", pos,
+		fmt.Sprintf("all %d (state, token kind, top level, number parses) transitions (from %d automaton points) match the Newick grammar up to state renaming: where a node may start, descend/ascend/sibling at the right depth, one name and one length per node, ';' only at the top level", n, len(m.points)),
+		"the parser deviates from the Newick grammar: "+strings.Join(bad, "; "))
 }
